@@ -89,6 +89,25 @@ CHECKS = {
          TRUST + "Shapes beyond the bound and element types other than f64 are not explored.", "3 C19"),
 }
 
+# Additions made after the independently seeded changes (DESIGN 8.2); appended to level_claimed.text.
+EXTRA = {
+ "C01": "Also at L2: monomorphic (ALT=.) records over every row of {hom-ref, missing}, symbolic / indel / '*' alleles, an explicit --precision 0/1/6/17 without projection (still exact integers), a list naming one sample twice, and the list written grouped by population (order unlike the column order) on a call set that no permutation of the samples maps onto itself.",
+ "C03": "Every ordered pair of 110 (shape,target) projections run back to back on one thread (call histories of length 2). At L2 every wrong-dimensionality target that agrees with the source on shared axes (prefixes, suffixes, an axis dropped / appended / prepended / doubled) must be rejected.",
+ "C05": "Every basis spectrum and every spectrum with an exactly-zero mirror pair on all shapes with <=30 (thorough 52) cells x 4 fills; every ordered pair of those shapes folded back to back on one thread (call histories of length 2).",
+ "C07": "The consumer receives the bytes through every transport {stdin regular file, stdin real pipe, path of a regular file, path of a FIFO, /dev/stdin over a pipe}; -o onto a longer pre-existing file; a size ladder of 600..150 000 cells (thorough 1.2 M) through both formats at L1 and through view | view -O npy | view at L2 with every value compared exactly.",
+ "C09": "Seven naming schemes for sample names and labels (numeric names in non-lexicographic order, labels with blanks sharing a first word, prefix / case-differing / numeric labels, a label equal to a sample name, names with blanks, non-ASCII); samples files with LF, CRLF, no final newline and mixed endings; an absent sample at every position of every list of 1..4 entries; verbatim repeated entries; contradictory lists (accepted: an error, or the first-label or last-label assignment).",
+ "C10": "Streams of length 2..3 additionally with all records at one contig:position, and (without corrupt lines) as BCF whose header lists the contigs against their IDX order; cohorts of 60/90/128/200 samples x -p in {1,20,n/2,n-5,n}: finite entries, mass + skipped = records.",
+ "C11": "Projection set-ups (2,2), (4,1), (0,2), (3,0), (0,0) chromosomes; the number of observations must equal the number of records.",
+ "C12": "For the small call sets also: ten file names (no, neutral, matching and misleading extensions) and the transports real pipe on stdin, FIFO by path, /dev/stdin. For the large call set stored BGZF blocks whose compressed first block is 8, 16, 32 and 64 KiB.",
+ "C13": "Spectra with totals below one, exactly one and within 1e-6 of one, single-entry spectra, and three spectra with more than 4096 entries. Library layer: breadth-first search over sequences of real operations {marginalize one / two axes, project one axis by -1 / all axes to 1, mask, normalize, fold} on the live object from five initial spectra to depth 4 (thorough 5); after every transition shape, element count, every value by flat position and through multi-index access, the total and every axis sum are compared with the reference (about 3 200 states, 13 800 transitions quick).",
+ "C14": "Monomorphic entries also at 1e17 and 1e150 (values next to which the polymorphic mass vanishes in floating point).",
+ "C15": "Every reader-matrix file is additionally read in 1-, 7- and 13-byte chunks; `view -O npy` to a piped stdout for spectra whose binary values contain 0x0A bytes.",
+ "C16": "npy extensions of 1..16, 24, 32, 40, 48, 64, 72 bytes of eight byte kinds (pattern, zeros, 0xff, spaces, newlines, CRLF, tabs, letters); text: every surplus of 2..2n tokens, surplus values on a third line, a duplicated value line, concatenated spectra.",
+ "C17": "Every axis list of length 1..4 over axes 0..d on a 3- and a 4-axis spectrum as -m and -M.",
+ "C18": "At L2: view / fold / stat reading text and npy spectra from real pipes with a short first write; stdout and -o connected to /dev/full for every subcommand must end in a diagnosed error. Thorough bound 2: all pairs of cuts for plain inputs and single-block BGZF inputs with one inflater thread; for the other BGZF inputs the first cut ranges over the first block + 32 bytes.",
+ "C19": "Iterator histories also next^j.nth(k).len.size_hint.next.len, next^j.count and next^j.last for j and k on their boundaries (0, 1, last, one and two past the end).",
+}
+
 NOT_YET = {}
 
 def main():
@@ -107,7 +126,7 @@ def main():
                 "evidence_file": f"/verif/evidence/{pid}.json",
                 "replay_cmd_template": f"./check {pid} --replay {{path}}",
                 "engine": "sfsmc",
-                "level_claimed": {"category": cat, "text": text, "design_ref": ref},
+                "level_claimed": {"category": cat, "text": (text + " " + EXTRA[pid]) if pid in EXTRA else text, "design_ref": ref + (", 8.2" if pid in EXTRA else "")},
                 "level_note": note,
                 "technique": tech,
             })
